@@ -25,7 +25,8 @@ def verify(mid):
         tests=re.findall(r'^func (Test\w+)\(', demo, re.M)
         race='-race' in meta.get('demo_cmd','')
         runre='^('+'|'.join(tests)+')$'
-        democmd=f"go test -vet=off -count=1 {'-race ' if race else ''}-run '{runre}' ."
+        tags='-tags verif ' if '-tags verif' in meta.get('demo_cmd','') else ''  # a demonstration may hold goroutines at the named hook points
+        democmd=f"go test {tags}-vet=off -count=1 {'-race ' if race else ''}-run '{runre}' ."
         open(os.path.join(wt,'zz_demo_test.go'),'w').write(demo)
         # demo without patch
         rc,out=sh(democmd, wt, 300); res['demo_without_patch_passes']=(rc==0); res['demo_without_out']=out[-600:] if rc else ''
